@@ -371,7 +371,8 @@ impl ActorCell {
         let mut pending = vec![self.clone()];
         while let Some(actor) = pending.pop() {
             // We don't need to notify of exit if we're already stopping or stopped.
-            if actor.get_status() <= ActorStatus::Upgrading {
+            // A draining actor is still processing messages and must be killed too.
+            if actor.get_status() < ActorStatus::Stopping {
                 actor.kill();
             }
 
